@@ -10,7 +10,7 @@ MB_SHORTS = ["é", "ü", "日", "ß", "Ω", "😀"]
 
 DEFAULT_PROFILE = dict(
     n_opts=(1, 6), p_short=0.6, p_long=0.75, p_mb_short=0.08, p_desc=0.3, p_default=0.2, p_required=0.12, p_optional=0.1,
-    p_choice=0.1, p_env=0.1, p_hidden=0.08, p_valname=0.1, p_mask=0.05, p_ininame=0.05, p_inicross=0.0, p_addoption=0.0, p_noini=0.03, p_base=0.1, p_unquote_false=0.03,
+    p_choice=0.1, p_env=0.1, p_hidden=0.08, p_valname=0.1, p_mask=0.05, p_ininame=0.05, p_inicross=0.0, p_addoption=0.0, p_mid_attach=0.0, p_noini=0.03, p_base=0.1, p_unquote_false=0.03,
     p_group=0.25, p_ptr_group=0.4, p_nil_ptr=0.5, p_namespace=0.5, p_plain_nested=0.08, p_unexported=0.05, p_untagged=0.1, p_noflag=0.03,
     p_commands=0.45, max_depth=2, n_cmds=(1, 3), p_alias=0.3, p_cmd_hidden=0.1, p_subopt=0.25, p_exec=0.6, p_exec_err=0.2,
     p_tagcmd=0.5, p_positional=0.3, n_pos=(1, 3), p_pos_slice=0.4, p_pos_required=0.4,
@@ -324,7 +324,14 @@ class Gen:
         tag = self.tag_of(kvs)
         if self.chance("p_bad_tag"):
             tag = units.gen_tag(r, malformed_p=0.9)
-        f = {"name": ("F%d" % self.fname).encode() if exported else ("f%d" % self.fname).encode(), "exported": exported, "tag": tag, "type": t, "fid": fid}
+        fname = ("F%d" % self.fname).encode() if exported else ("f%d" % self.fname).encode()
+        if exported and getattr(self, "outer_names", None) and self.p.get("p_dupfield", 0.0) and r.random() < self.p["p_dupfield"]:
+            # the same field name as an option of an enclosing struct (field names are only unique per struct):
+            # the INI reader resolves names by field name within a group and its sub-groups, first one wins
+            cand = [n for n in self.outer_names if n.startswith(b"F") and n not in getattr(self, "struct_names", set())]
+            if cand: fname = r.choice(cand)
+        if hasattr(self, "struct_names"): self.struct_names.add(fname)
+        f = {"name": fname, "exported": exported, "tag": tag, "type": t, "fid": fid}
         info["field"] = f["name"]
         info["ininame"] = dict(kvs).get(b"ini-name")
         info["noini"] = b"no-ini" in dict(kvs)
@@ -357,6 +364,23 @@ class Gen:
         r = self.rng
         fields = []
         lo, hi = self.p["n_opts"]
+        saved_names, saved_outer, saved_g = getattr(self, "struct_names", set()), getattr(self, "outer_names", []), getattr(self, "cur_gdesc", "<none>")
+        if gdesc == saved_g and depth > 0:
+            # a plain nested struct: its options join the enclosing group, where ini names must stay distinct
+            pass
+        else:
+            self.outer_names = list(saved_outer) + sorted(saved_names)
+            self.struct_names = set()
+        self.cur_gdesc = gdesc
+        try:
+            return self.gen_fields_inner(scope, node, depth, in_group, ns, envns, gdesc, ghidden, fields, lo, hi)
+        finally:
+            if not (gdesc == saved_g and depth > 0):
+                self.struct_names, self.outer_names = saved_names, saved_outer
+            self.cur_gdesc = saved_g
+
+    def gen_fields_inner(self, scope, node, depth, in_group, ns, envns, gdesc, ghidden, fields, lo, hi):
+        r = self.rng
         for _ in range(r.randint(lo, hi)):
             x = r.random()
             if x < self.p["p_untagged"]:
@@ -445,6 +469,7 @@ class Gen:
             else:
                 t = ("k", r.choice(["string", "string", "string", "int", "int8", "float64", "custom", "uint8", "bool", "duration"]))
                 if r.random() < 0.08: t = ("ptr", r.choice(["string", "int"]))
+                elif r.random() < self.p.get("p_pos_map", 0.05): t = ("map", "string", r.choice(["int", "string"]))
             kv = []
             if r.random() < 0.3: kv.append((b"positional-arg-name", r.choice([b"FILE", b"name", "名前".encode(), b"ARG"])))
             if r.random() < 0.4: kv.append((b"description", r.choice([b"An argument", b"Input file to read"])))
@@ -585,6 +610,21 @@ class Gen:
         sc = {"cfg": cfg, "data": data, "attach": attach, "init": self.init, "ops": [], "meta": root}
         for _ in range(n_parses):
             sc["ops"].append({"op": "parse", "args": self.gen_argv(sc)})
+        if self.p.get("p_mid_attach", 0.0) and r.random() < self.p["p_mid_attach"]:
+            # the declaration is extended through the API between two parses (AddGroup or AddOption on the parser)
+            if r.random() < 0.7:
+                self.sid += 1
+                gshort = b"Late Group %d" % self.sid
+                ns = r.choice([b"", b"", b"late"])
+                scope = {"long": set(), "short": set()}
+                fields = self.gen_fields(scope, root, 1, True, (ns,) if ns else (), (), gshort, False)
+                att = {"kind": "group", "path": [], "short": gshort, "long": b"", "fields": fields, "ns": ns, "envns": b"", "hidden": False}
+            else:
+                tmp = []
+                self.gen_addoption(root, [], tmp)
+                att = tmp[0]
+            sc["ops"].append({"op": "attach", "attach": att})
+            sc["ops"].append({"op": "parse", "args": self.gen_argv(sc)})
         return sc
 
     def gen_addoption(self, node, path, attach):
@@ -596,7 +636,8 @@ class Gen:
         for k in saved: self.p[k] = 0.0
         self.force_type = ("ptr", kind)
         try:
-            scope = {"long": set(o["long"] for o in node["opts"] if o["long"]), "short": set((o["short"] or b"").decode("utf-8", "replace") for o in node["opts"])}
+            scope = {"long": set(o["long"].decode("utf-8", "replace") for o in node["opts"] if o["long"]),
+                     "short": set((o["short"] or b"").decode("utf-8", "replace") for o in node["opts"])}
             f, info = self.gen_option(scope)
         finally:
             self.force_type = None
@@ -754,7 +795,7 @@ class Gen:
                     p = r.choice(cur["pos"])
                     toks.append(self.value_text(p["type"], 10, valid=r.random() > 0.1))
                 else:
-                    toks.append(r.choice([b"file.txt", b"x", b"", b"-", b"a b", b"---x", b"7", "ü".encode(), b"plain"]))
+                    toks.append(r.choice([b"file.txt", b"x", b"", b"-", b"a b", b"---x", b"7", "ü".encode(), b"plain", b"50%", b"%s"]))
             elif ev == "term":
                 toks.append(b"--")
             elif ev == "unknown":
@@ -770,7 +811,8 @@ class Gen:
                     else: nm = o["long"] if o.get("ns") else b"sub." + nm
                     toks.append(b"--" + nm + (b"=v" if r.random() < 0.3 else b""))
                 elif x < 0.8:
-                    toks.append(r.choice([b"-Z", b"-ZZ", b"--nosuch", b"--nosuch=1", b"-Z=3", b"-\xc3\xa9", b"-=x", b"--=x", b"-Zfoo"]))
+                    toks.append(r.choice([b"-Z", b"-ZZ", b"--nosuch", b"--nosuch=1", b"-Z=3", b"-\xc3\xa9", b"-=x", b"--=x", b"-Zfoo",
+                                          b"--100%sure", b"-%", b"--nosuch=5%d"]))
                 else:
                     fl = [o for c in chain for o in c["opts"] if o["isbool"] and o["short"] and len(o["short"]) == 1]
                     if fl:
